@@ -327,3 +327,41 @@ def gen_sequence(r):
     cseq = r.choice([0, 1, 254, 255, 65535, (1 << 32) - 2, r.randint(0, 1 << 30)])
     sseq = r.choice([0, 1, 254, 255, 65535, (1 << 24) - 2, r.randint(0, 1 << 30)])
     return " ".join(["oscseq"] + ctx_tokens(c) + [tok(token), str(r.choice([0, 1])), str(cseq), str(sseq)] + steps)
+
+
+# ---- two security contexts at one server session, interleaved requests, delayed responses ----
+MULTI_PATTERNS = [
+    ["QA-", "QB-", "RA00", "RB00"],                       # request A, request B, delayed response to A
+    ["QA-", "QB-", "RB00", "RA00"],
+    ["QA0", "RA10", "QB-", "RA10", "RB00", "RA10"],       # notification for A after B's request
+    ["QA0", "QB0", "RB10", "RA10", "QA1", "RB10", "RA00", "RB01"],
+    ["QB-", "QA-", "QB-", "RA01", "RB00"],
+    ["QA-", "RA00", "QB-", "RB00", "QA-", "QB-", "RA00", "RB01"],
+]
+
+
+def gen_multi(r):
+    a = gen_ctx(r)
+    b = gen_ctx(r)
+    sa, sb = list(a), list(b)
+    mode = r.random()
+    if mode < 0.25 and a[2] is not None:
+        # same ids, told apart by the id context only (same master secret allowed)
+        sb[3], sb[4] = a[3], a[4]
+        sb[2] = bytes([a[2][0] ^ 0x55]) + a[2][1:]
+    else:
+        # the server finds the context by the client's id: make them differ
+        while sb[3] == sa[3]:
+            sb[3] = rb(r, r.choice([1, 2, 3]))
+            if sb[3] == sb[4]:
+                sb[3] = sb[3] + b"\x01"
+    ta = rb(r, r.choice([1, 2, 4, 8]))
+    tb = ta
+    while tb == ta:
+        tb = rb(r, r.choice([1, 2, 4, 8]))
+    steps = list(r.choice(MULTI_PATTERNS))
+
+    def peer(c, tokn):
+        return ctx_tokens(tuple(c)) + [str(r.choice([0, 1, 255, 65535, r.randint(0, 1 << 30)])),
+                                       str(r.choice([0, 1, 254, 65535, r.randint(0, 1 << 30)])), tok(tokn)]
+    return " ".join(["oscmulti"] + peer(sa, ta) + peer(sb, tb) + steps)
